@@ -282,8 +282,9 @@ impl Property for C09 {
     }
     fn strategy(&self, tier: Tier) -> BoxedStrategy<Case> {
         let maxd = tier.pick(4u32, 5u32);
-        (sized(3, 6), sized(2, 3))
+        (sized_wide(3, 6), sized(2, 3))
             .prop_flat_map(move |(n, p)| {
+                let maxd = if n >= 8 { 3 } else { maxd };
                 (
                     super::c02::tree_params_strategy(2, n, p, maxd).prop_flat_map(tree_spec),
                     proptest::collection::vec(point_spec(n), 6..12),
